@@ -10,7 +10,7 @@ import itertools, random
 from . import common as C
 
 PROP = "C12"
-MODULES = ["RuschmProofs.C12"]
+MODULES = ["RuschmProofs.C12", "RuschmProofs.C12More"]
 EXPORTS = {"a": 1, "b": 2, "c": 3, "d": 4}
 NAMES = ["a", "b", "c", "d"]
 
@@ -126,6 +126,23 @@ def run(rep, tier, rng):
         cid = "u%d" % k; k += 1
         cases.append((cid, "imports", ["(import %s %s)" % (t1, t2)]))
         expect[cid] = "conflict" if conflict else sorted("%s=i:%d" % (n, v) for n, v in merged.items())
+    # declarations of two or three sets of ANY depth, the bare library among them a third of the time, at any position: each set
+    # contributes its own bindings whatever the others are (a set is never redundant just because another set names the same library)
+    adm_all = [(t, b) for t, b in terms if admissible(b)]
+    deep = [(t, b) for t, b in adm_all if t.count("(") >= 3] or adm_all
+    for _ in range(1500 if tier == "quick" else 20000):
+        sets = [rng.choice(deep if rng.random() < 0.7 else adm_all) for _ in range(rng.randrange(2, 4))]
+        if rng.random() < 0.35:
+            sets[rng.randrange(len(sets))] = ("(m)", base)
+        merged, conflict = {}, False
+        for _t, b in sets:
+            for n, v in b:
+                if n in merged and merged[n] != v:
+                    conflict = True
+                merged[n] = v
+        cid = "w%d" % k; k += 1
+        cases.append((cid, "imports", ["(import %s)" % " ".join(t for t, _ in sets)]))
+        expect[cid] = "conflict" if conflict else sorted("%s=i:%d" % (n, v) for n, v in merged.items())
     impls = [C.run_hx(cases) for _ in range(3)]
     model = C.run_driver(cases)
     for cid, _, f in cases:
@@ -161,7 +178,7 @@ def main(tier, seed):
                        "<=3 of the exports plus an unknown name, prefix with 2 prefixes, rename with every single renaming into "
                        "exported/fresh names, a swap, a 3-cycle, a chain, an unknown source, the empty renaming) at depth 1 "
                        "(exhaustive) and depth 2 (6000 sampled in quick, exhaustive in thorough; sampled depth 3 in thorough), and "
-                       "two-set declarations; terms that bind one name twice must be rejected; each run in 3 processes; "
+                       "two-set declarations of depth-1 terms, declarations of two or three sets of any depth with the bare library among them; terms that bind one name twice must be rejected; each run in 3 processes; "
                        "distinct = distinct declaration texts")
     ok = C.standard_proof_phase(rep, MODULES, directed_search=lambda r: run(r, tier, rng))
     if ok:
